@@ -13,7 +13,7 @@
    and flavour short of a COMMIT / RELEASE fault.  File maps are compared extensionally (`feq`: same content in every
    slot), because an undone Move ingest re-creates the staged file at the front of the association list. *)
 From Coq Require Import NArith List Bool.
-From V Require Import Model.Txn Model.TxnCheck Proofs.TxnProofs Proofs.TxnFiles Proofs.TxnProofsRm Proofs.TxnProofsLo Proofs.TxnProofsLo2 Proofs.TxnProofsLo3.
+From V Require Import Model.Txn Model.TxnCheck Proofs.TxnProofs Proofs.TxnFiles Proofs.TxnFilesX Proofs.TxnProofsRm Proofs.TxnProofsLo Proofs.TxnProofsLo2 Proofs.TxnProofsLo3.
 Import ListNotations.
 Open Scope N_scope.
 
@@ -90,6 +90,63 @@ Theorem ingest_atomic_files : forall mo d s s' h,
   feq (fs s') (fs s) /\ feq (ext s') (ext s) /\ ptr s' = ptr s /\ no_orphan s'.
 Proof. exact ingest_files_atomic_p. Qed.
 Print Assumptions ingest_atomic_files.
+
+(* --- transfer_from (Butler.transfer_from(source, [ref], transfer="copy")) as an operation of the model.
+   Registry side, every depth / state / fault position: *)
+Theorem transfer_atomic_registry : forall d s s' h,
+  exec_op shipped (Transfer d) s = (s', Raised h) -> (cfault s' = false \/ sql s = []) -> cur s' = cur s.
+Proof. exact transfer_registry_atomic_p. Qed.
+Print Assumptions transfer_atomic_registry.
+
+(* File side, PARTIAL: under the exact guard "if the transferred slot is registered it has a datastore record" (true for
+   every slot that was never unstored).  Missing for full strength: FileDatastore.transfer_from copies with overwrite=True
+   whenever the target has no RECORD, so Transfer is not an `additive` operation of the nested theorems above. *)
+Theorem transfer_atomic_files_partial : forall d s s' h,
+  no_orphan s -> (mem d (ds (cur s)) = true -> mem d (recs (cur s)) = true) ->
+  exec shipped (POp (Transfer d)) s = (s', Raised h) -> cfault s' = false ->
+  feq (fs s') (fs s) /\ feq (ext s') (ext s) /\ ptr s' = ptr s /\ no_orphan s'.
+Proof. exact transfer_files_atomic_p. Qed.
+Print Assumptions transfer_atomic_files_partial.
+
+(* the guard is necessary on the model: slot registered by an earlier transfer, artifact present, record missing (the
+   state K-C07-delete-error-swallowed leaves behind after an unstore) -- a failing re-transfer overwrites the artifact
+   and its rollback deletes it.  Needs two faults on the implementation; not replayed, not a known finding. *)
+Theorem transfer_atomic_files_guard_necessary :
+  exists j, let '(s', r) := exec shipped (POp (Transfer 0)) (set_fuse (Some j) s_norec) in
+            r = Raised false /\ cfault s' = false /\ no_orphan s_norec /\ fget 0 (fs s_norec) = Some 7 /\ fget 0 (fs s') = None.
+Proof. exact transfer_unrecorded_artifact_lost_p. Qed.
+Print Assumptions transfer_atomic_files_guard_necessary.
+
+(* --- import_ (Butler.import_(directory, filename, transfer="copy") of an export holding one dataset).  Registry side: *)
+Theorem import_atomic_registry : forall d s s' h,
+  exec_op shipped (ImportDs d) s = (s', Raised h) -> (cfault s' = false \/ sql s = []) -> cur s' = cur s.
+Proof. exact import_registry_atomic_p. Qed.
+Print Assumptions import_atomic_registry.
+
+(* File side, PARTIAL: when the imported slot has no artifact yet.  Missing for full strength: exactly the refutation below. *)
+Theorem import_atomic_files_partial : forall d s s' h,
+  no_orphan s -> fget d (fs s) = None ->
+  exec shipped (POp (ImportDs d)) s = (s', Raised h) -> cfault s' = false ->
+  feq (fs s') (fs s) /\ feq (ext s') (ext s) /\ ptr s' = ptr s /\ no_orphan s'.
+Proof. exact import_files_atomic_p. Qed.
+Print Assumptions import_atomic_files_partial.
+
+(* additive_op_atomic is FALSE for import_ on the faithful model and on the implementation -- WITHOUT any injected fault
+   (known finding K-C07-reimport-deletes-artifact): importing a dataset that is already stored (same dataset id, e.g. the
+   same export file twice) passes the registry (no-op), FileDatastore.ingest overwrites the artifact and registers the
+   undo, INSERT dataset_location fails, and the rollback DELETES the artifact of the committed dataset. *)
+Theorem import_atomic_refuted_reimport :
+  let '(s', r) := exec shipped (POp (ImportDs 0)) s_imp in
+  fuse s_imp = None /\ r = Raised false /\ cfault s' = false /\ cur s' = cur s_imp /\
+  mem 0 (loc (cur s_imp)) = true /\ fget 0 (fs s_imp) = Some 200 /\ fget 0 (fs s') = None.
+Proof. exact reimport_deletes_artifact_p. Qed.
+Print Assumptions import_atomic_refuted_reimport.
+
+Theorem inner_escape_refuted_reimport :
+  let '(s', r) := exec shipped (PBlock [PTry (POp (ImportDs 0)); POp (Assoc 0)]) s_imp in
+  r = Normal /\ mem 0 (ds (cur s')) = true /\ mem 0 (loc (cur s')) = true /\ tags (cur s') = [0] /\ fget 0 (fs s') = None.
+Proof. exact reimport_caught_p. Qed.
+Print Assumptions inner_escape_refuted_reimport.
 
 (* --- the undo-log invariant behind them: an additive program that ends normally inside a datastore transaction has
    pushed onto the current log exactly entries whose replay restores the files *)
@@ -420,4 +477,21 @@ Proof. vm_compute. repeat split. Qed.
 Example reachable_many_datasets :
   let s := run_ops [Put 0 1; Put 1 2; Ingest Move 2; Put 3 4; Assoc 1; Cert 1; Unstore 3; Purge 2] (init e0) in
   ds (cur s) = [3; 1; 0] /\ loc (cur s) = [1; 0] /\ fvec (fs s) = [2; 3; 0; 0].
+Proof. vm_compute. repeat split. Qed.
+
+(* transfer_from: a block that transfers two datasets next to a stored one and then fails restores registry and files; a
+   second transfer of a registered, recorded dataset is a no-op; a transfer onto a locally stored slot is a conflict *)
+Example transfer_block_rolls_back :
+  let '(s', r) := exec shipped (PBlock [POp (Transfer 0); POp (Transfer 2); POp (Transfer 0); PTry (POp (Transfer 1)); PFail]) s_one in
+  r = Raised false /\ cfault s' = false /\ cur s' = cur s_one /\ fs s' = fs s_one.
+Proof. vm_compute. repeat split. Qed.
+
+Example transfer_commits :
+  let '(s', r) := exec shipped (PBlock [POp (Transfer 0); POp (Transfer 0)]) s_one in
+  r = Normal /\ ds (cur s') = [0; 1] /\ xf (cur s') = [0] /\ fvec (fs s') = [201; 3; 0; 0].
+Proof. vm_compute. repeat split. Qed.
+
+Example import_commits :
+  let '(s', r) := exec shipped (PBlock [POp (ImportDs 0); POp (ImportDs 2)]) s_one in
+  r = Normal /\ ds (cur s') = [2; 0; 1] /\ xf (cur s') = [2; 0] /\ fvec (fs s') = [201; 3; 203; 0].
 Proof. vm_compute. repeat split. Qed.
